@@ -196,3 +196,30 @@ Example degenerate_chord_not : degenerate_chord sq10 (mkpt (-5) (-4)) (mkpt 15 1
 Proof. vm_compute. reflexivity. Qed.
 Example convex_sq10 : convex_ccw sq10 = true.
 Proof. vm_compute. reflexivity. Qed.
+
+(* ---- the unconditional core of route_ok (no containment exemption): used on hyperedge scenes, where every attachment
+   (free junction, free terminal point) is generated in free space and the improver may move the junction end *)
+Theorem segs_clear_spec obst r :
+  segs_clear obst r = true <->
+  forall P a b, In P obst -> In (a, b) (consecutive r) -> segment_avoids P a b.
+Proof.
+  unfold segs_clear. rewrite forallb_forall. split.
+  - intros H P a b HP Hab. specialize (H (a, b) Hab). rewrite forallb_forall in H.
+    apply seg_clear_spec. exact (H P HP).
+  - intros H [a b] Hab. rewrite forallb_forall. intros P HP.
+    apply seg_clear_spec. cbn [fst snd]. exact (H P a b HP Hab).
+Qed.
+
+(* with both attachments outside every shape's interior route_ok is: joins the ends + segs_clear over ALL shapes *)
+Lemma obstacles_all_when_free shapes s d :
+  (forall P, In P shapes -> inside_strict P s = false /\ inside_strict P d = false) -> obstacles shapes s d = shapes.
+Proof.
+  intro H. unfold obstacles. induction shapes as [|P l IH]; [reflexivity|].
+  cbn [filter]. destruct (H P (or_introl eq_refl)) as [Hs Hd]. rewrite Hs, Hd. cbn [orb negb].
+  f_equal. apply IH. intros Q HQ. apply H. right. exact HQ.
+Qed.
+
+Example segs_clear_through_rejected : segs_clear [sq10] [mkpt 5 (-5); mkpt 5 15] = false.
+Proof. vm_compute. reflexivity. Qed.
+Example segs_clear_around_accepted : segs_clear [sq10] [mkpt 5 (-5); mkpt 12 (-5); mkpt 12 15; mkpt 5 15] = true.
+Proof. vm_compute. reflexivity. Qed.
